@@ -187,4 +187,13 @@ example : WellFormedMode (.arr (.cons (.str []) (.cons (.int 7) (.cons (.map .ni
     (.cons (.map (.cons (.str kChunk) (.cons (.str [0x61]) .nil))) .nil))))) :=
   .msg4 _ _ _ _ (.int 7) (Or.inr ⟨_, rfl, ⟨⟨kChunk, rfl, by decide⟩, trivial⟩⟩)
 
+/-! ### limit of the model (open finding C11-ext32-skip)
+
+`skip` in the model is the slice-path `msgp.Skip`.  `GetChunk` runs on msgp's *stream* reader,
+whose `Skip` (v1.1.9) fails on any value in the ext32 format.  On the witness below — a Message
+whose EventTime is written as ext32, options `{"chunk": "abc"}` — the model (and the option map)
+say `abc`, the real `GetChunk` returns an error: there the theorem is about the model only, the
+correspondence check does not compare, and the property oracle reports the finding.
+(witness bytes: corpus/C11.lines; `fvdriver` evaluates `getChunk` on it to `ok 616263`) -/
+
 end FV
